@@ -1780,6 +1780,18 @@ func ruleC07RegistryFresh(c *Ctx) {
 		n++
 		t := tb.Of(mu.Map)
 		c.Check(t.Op == "make" && strings.HasPrefix(t.Name, "map"), "c07.registry-fresh", fmt.Sprintf("BuildCte/registration#%d", n), c.P.Pos(mu.Pos()), "the entry goes into a map made by this call", "a CTE is registered into "+t.String()+": the registry of the enclosing statement gains (or loses to) the names of a nested WITH")
+		// the name of a CTE wins over an entry of the enclosing registry (the input document, an outer CTE): the unconditional
+		// copy of the enclosing entries into the registry cannot run once a CTE has been registered
+		why := ""
+		for _, mc := range mapCopies(f) {
+			if mc.Cond || !(sameValue(mc.Dst, mu.Map) || tb.Of(mc.Dst).String() == t.String()) {
+				continue
+			}
+			if mc.Block == mu.Block() || reaches(mu.Block(), mc.Block) {
+				why = "the entries of the enclosing registry are copied over the registry at " + c.P.Pos(mc.Pos) + " after a CTE was registered at " + c.P.Pos(mu.Pos()) + ": a key of the input document (or an outer CTE) silently replaces the CTE of the same name"
+			}
+		}
+		c.Check(why == "", "c07.registry-fresh", fmt.Sprintf("BuildCte/registration#%d/wins-over-copied-entries", n), c.P.Pos(mu.Pos()), "no unconditional copy into the registry after the registration", why)
 	})
 	if n == 0 {
 		c.Unknown("c07.registry-fresh", "BuildCte", c.P.Pos(f.Pos()), "anchor lost: no registration of a lazy CTE")
